@@ -19,7 +19,7 @@ func init() {
 var yd2Formats = map[string]bool{"formats/fasta": true, "formats/fastq": true, "formats/bed": true, "formats/newick": true}
 
 func rulesC18(c *Ctx, r *Report) {
-	r.explain("Decides, on go/cfg of every function or literal in the module that calls a func(...) bool parameter: (YD1) no callback call is reachable once a callback call has returned false — necessary and sufficient for 'makes no further callback', necessary for 'does not panic' (range-over-func panics on a late callback); (YD2) in fasta, fastq, bed, newick a callback call that carries a non-nil, non-pass-through error is followed by no callback call — 'an error item is always the last item'. Not decided: that the items seen before stopping are the leading items of an uninterrupted run (determinism). Added rules: (REENTRANT) no iterator literal assigns to a captured variable; (STALE-ELEM) for the explicit stacks of ForEach and traverse; (NIL-HANDLE); ForEach's key enumeration/progress rules and the CanonicalSubsequences count/window rules (what the leading items are). (CLOSE) for every aio.Open in the File functions: every path from the successful open to a return passes a Close of that file, called or deferred (directly, in a deferred closure, or in a module helper) — an early stop releases the descriptor like a full run does. (SC-BUF) shared from C02: Scanner.Buffer is called before the first Scan (calling it later panics — an iterator that panics on a long line).")
+	r.explain("Decides, on go/cfg of every function or literal in the module that calls a func(...) bool parameter: (YD1) no callback call is reachable once a callback call has returned false — necessary and sufficient for 'makes no further callback', necessary for 'does not panic' (range-over-func panics on a late callback); (YD2) in fasta, fastq, bed, newick a callback call that carries a non-nil, non-pass-through error is followed by no callback call — 'an error item is always the last item'. Not decided: that the items seen before stopping are the leading items of an uninterrupted run (determinism). Added rules: (REENTRANT) no iterator literal assigns to a captured variable; (STALE-ELEM) for the explicit stacks of ForEach and traverse; (NIL-HANDLE); ForEach's key enumeration/progress rules and the CanonicalSubsequences count/window rules (what the leading items are). (CLOSE) for every aio.Open in the File functions: every path from the successful open to a return passes a Close of that file, called or deferred (directly, in a deferred closure, or in a module helper) — an early stop releases the descriptor like a full run does. (SC-BUF) shared from C02: Scanner.Buffer is called before the first Scan (calling it later panics — an iterator that panics on a long line). Shared from C11 (\"does not panic\"): GRD and PANIC over everything the codec iterators reach.")
 	r.assume("go/cfg and go/types of x/tools v0.29.0 represent the source faithfully; a consumer callback that returns normally; the language guarantees a range-over-func loop body returns false to the inner iterator after break/return")
 	yds := allYD(c.Pkgs)
 	nf, ns, n2 := 0, 0, 0
